@@ -23,7 +23,8 @@ RULE = ('(a) random crystals: Bravais type from all 3-D (11) and 2-D (5) systems
         '(a) run on it). Non-trivial = crystal with >1 atom or >1 operation / subgroup of order >1; distinct = (kind, rotated, '
         'atoms per species, |G|) or (holohedry, subgroup, orientation)')
 ASSUMPTIONS = ['positions compared modulo the lattice with tolerance 1e-6 (the class threshold is 1e-8); generated test points whose '
-               'images lie between 1e-9 and 1e-3 of each other are skipped as threshold-degenerate',
+               'images lie between 1e-9 and 1e-3 of each other are skipped as threshold-degenerate; so are crystals whose independent group '
+               'changes when its tolerance goes from 1e-6 to 1e-9 (atoms symmetric only to within that window)',
                'projectors, orthonormality and equivariance compared to 1e-9 (algebraic identities on unit-scale objects)',
                'the reference space group is a brute-force search over integer matrices with entries |m|<=2 (the repository '
                'searches |m|<=1) and all atom-to-atom translations']
@@ -184,7 +185,10 @@ def check_crystal(mon, crystal, crys, rng, desc, sigkey):
     """All site-symmetry monitors on one constructed crystal; returns the independent group."""
     dim = crys.dim
     L, Linv = crys.lattice, np.linalg.inv(crys.lattice)
-    refG = geom.full_group(L, crys.basis)
+    refG, degenerate = pg.reference_group(L, crys.basis, len(crys.G))
+    if degenerate:
+        mon.count('threshold_degenerate_crystal_skipped')
+        return refG
     mon.count('crystals_checked')
     mon.seen('group_orders', len(refG))
     if crys.N > 1 or len(refG) > 1:
